@@ -197,6 +197,46 @@ class ModuleScan:
         self.collect_cells()
         self.collect_uses()
 
+    def cross_module_class_writes(self, by_attr: Dict[str, List["Cell"]], bases: Dict[str, Set[str]]):
+        """`self.<attr>` / `cls.<attr>` mutated in a class of this module where <attr> is a class-level mutable
+        object of an ancestor class defined in *another* scanned module (classes and bases are matched by simple
+        name across the scan set - an over-approximation)"""
+        own = {a for d in self.class_attrs.values() for a in d}
+
+        def ancestors(c: str) -> Set[str]:
+            seen: Set[str] = set()
+            todo = [c]
+            while todo:
+                x = todo.pop()
+                for b in bases.get(x, ()):
+                    if b not in seen:
+                        seen.add(b)
+                        todo.append(b)
+            return seen
+
+        for cls in [n for n in ast.walk(self.tree) if isinstance(n, ast.ClassDef)]:
+            anc = ancestors(cls.name)
+            for f in [n for n in ast.walk(cls) if isinstance(n, (ast.FunctionDef, ast.AsyncFunctionDef))]:
+                assigned_in_init = set()
+                for n in ast.walk(f):
+                    targets = []
+                    if isinstance(n, (ast.Assign, ast.AugAssign, ast.AnnAssign)):
+                        ts = n.targets if isinstance(n, ast.Assign) else [n.target]
+                        for t in ts:
+                            targets += list(t.elts) if isinstance(t, (ast.Tuple, ast.List)) else [t]
+                        targets = [t for t in targets if isinstance(t, ast.Subscript)]
+                    elif isinstance(n, ast.Delete):
+                        targets = [t for t in n.targets if isinstance(t, ast.Subscript)]
+                    elif isinstance(n, ast.Call) and isinstance(n.func, ast.Attribute) and n.func.attr in MUT_METHODS:
+                        targets = [n.func.value]
+                    for t in targets:
+                        r = root_name(t)
+                        if r and r[0] in ("self", "cls") and r[1] and r[1][0] in by_attr and r[1][0] not in own:
+                            for c in by_attr[r[1][0]]:
+                                if c.id.split(":")[1].split(".")[0] not in anc:
+                                    continue
+                                c.writes.append(f"{self.mod}:{cls.name}.{f.name}:{n.lineno}")
+
     def classify_file_writes(self) -> Tuple[List[str], List[str]]:
         """(unguarded, guarded) - a site is *guarded* when its function is a method that is called in this module
         only inside the body of `if not self.file_path.exists() [or … st_size == 0]:` (download of a missing or
@@ -264,12 +304,25 @@ class ModuleScan:
         # mutable defaults
         args = f.args
         pos = args.posonlyargs + args.args
-        for a, d in zip(pos[len(pos) - len(args.defaults):], args.defaults):
-            if is_mutable_expr(d):
-                self.add(f"{f.name}(default {a.arg})", "default", d.lineno)
-        for a, d in zip(args.kwonlyargs, args.kw_defaults):
-            if d is not None and is_mutable_expr(d):
-                self.add(f"{f.name}(default {a.arg})", "default", d.lineno)
+        mdefs = [(a, d) for a, d in zip(pos[len(pos) - len(args.defaults):], args.defaults) if is_mutable_expr(d)]
+        mdefs += [(a, d) for a, d in zip(args.kwonlyargs, args.kw_defaults) if d is not None and is_mutable_expr(d)]
+        for a, d in mdefs:
+            c = self.add(f"{f.name}(default {a.arg})", "default", d.lineno)
+            # the default object escapes (stored on self / another name) or is mutated in place: it is then one
+            # object shared by every call that omits the argument
+            for n in ast.walk(f):
+                if isinstance(n, (ast.Assign, ast.AnnAssign)) and isinstance(n.value, ast.Name) and n.value.id == a.arg:
+                    c.writes.append(f"{f.name}:{n.lineno}:aliased")
+                elif isinstance(n, ast.Call) and isinstance(n.func, ast.Attribute) and n.func.attr in MUT_METHODS:
+                    r = root_name(n.func.value)
+                    if r and r[0] == a.arg:
+                        c.writes.append(f"{f.name}:{n.lineno}")
+                elif isinstance(n, (ast.Assign, ast.AugAssign)):
+                    for t in (n.targets if isinstance(n, ast.Assign) else [n.target]):
+                        if isinstance(t, ast.Subscript):
+                            r = root_name(t)
+                            if r and r[0] == a.arg:
+                                c.writes.append(f"{f.name}:{n.lineno}")
         # caching decorators
         for d in f.decorator_list:
             e = d.func if isinstance(d, ast.Call) else d
@@ -492,8 +545,22 @@ def generate() -> Tuple[str, Dict]:
     cells: List[Cell] = []
     file_writes: List[str] = []
     guarded_sites: List[str] = []
-    for m in sorted(mods):
-        ms = ModuleScan(m, mods[m])
+    scans = [ModuleScan(m, mods[m]) for m in sorted(mods)]
+    by_attr: Dict[str, List[Cell]] = {}
+    for ms in scans:
+        for c in ms.cells.values():
+            if c.kind == "class":
+                by_attr.setdefault(c.id.rsplit(".", 1)[-1], []).append(c)
+    bases: Dict[str, Set[str]] = {}
+    for ms in scans:
+        for n in ast.walk(ms.tree):
+            if isinstance(n, ast.ClassDef):
+                for b in n.bases:
+                    bn = b.id if isinstance(b, ast.Name) else (b.attr if isinstance(b, ast.Attribute) else None)
+                    if bn:
+                        bases.setdefault(n.name, set()).add(bn)
+    for ms in scans:
+        ms.cross_module_class_writes(by_attr, bases)
         cells += list(ms.cells.values())
         u, g = ms.classify_file_writes()
         file_writes += u
